@@ -106,10 +106,18 @@ func Sample(v interface{}) {
 	}
 }
 
+var atExit []func()
+
+// AtExit registers a cleanup that runs after the tests, before the process exits.
+func AtExit(f func()) { atExit = append(atExit, f) }
+
 // Main is the TestMain body of every check package.
 func Main(m *testing.M) {
 	os.RemoveAll("testdata/rapid")
 	code := m.Run()
+	for _, f := range atExit {
+		f()
+	}
 	flush()
 	os.Exit(code)
 }
